@@ -882,11 +882,18 @@ def g4n(rng):
     if rng.random() < 0.85:
         loop = list(varranks)
         rng.shuffle(loop)
-        if rng.random() < 0.4:
+        r = rng.random()
+        if r < 0.4:
             w = rng.choice(sorted(own))
             victim = rng.choice(own[w])
             loop[loop.index(victim)] = w
             tags.append("own_rank_loop")
+        elif r < 0.52:
+            # redundant: the accessed tensor's own rank IN ADDITION to all index variables of its access (the unchanged compiler
+            # refuses these; whatever is accepted must still compute the Einsum)
+            w = rng.choice(sorted(own))
+            loop.insert(rng.randint(0, len(loop)), w)
+            tags.append("redundant_loop_order")
         case["mapping"]["loop-order"] = {"O": loop}
         tags.append("loop:" + ",".join(loop))
     return case
@@ -979,6 +986,30 @@ def g4q(rng, part=None):
     if loop:
         case["mapping"]["loop-order"] = {"O": loop}
         tags.append("loop:" + ",".join(loop))
+    return case
+
+
+def g4s(rng):
+    """convolution in which BOTH the output rank (with the input rank following) and the reduction rank are shape-partitioned, so a
+    bottom-rank projection mentions two partitioned index variables: O[q] = I[a*q + b*s] * F[s]"""
+    a = rng.choice([1, 1, 2])
+    b = rng.choice([1, 1, 2])
+    Qx, Sx = rng.randint(2, 7), rng.randint(2, 5)
+    Wx = a * (Qx - 1) + b * (Sx - 1) + 1
+    widx = [(a, "q"), (b, "s")]
+    if rng.random() < 0.3:
+        widx.reverse()
+    fs = [("t", "I", [widx]), ("t", "F", [V("S")])]
+    rng.shuffle(fs)
+    e = dict(out="O", oidx=[V("Q")], terms=[dict(kind="times", factors=fs, sel=None)])
+    qs, ss = rng.randint(1, 4), rng.randint(1, 3)
+    parts = {"Q": ["uniform_shape(%d)" % qs], "W": ["follow(Q)"], "S": ["uniform_shape(%d)" % ss]}
+    case = dict(decl={"I": ["W"], "F": ["S"], "O": ["Q"]}, eins=[e], mapping={"partitioning": {"O": parts}}, ext={"Q": Qx, "S": Sx, "W": Wx},
+                env={"Q0": qs, "S0": ss, "W0": a * qs}, tags=["g4s", "conv", "a%d" % a, "b%d" % b, "part1", "two_partitioned_index_variables"])
+    lo = rng.choice([None, ["Q1", "S1", "Q0", "S0"], ["Q1", "Q0", "S1", "S0"], ["S1", "Q1", "S0", "Q0"], ["Q1", "S1", "S0", "Q0"]])
+    if lo:
+        case["mapping"]["loop-order"] = {"O": lo}
+        case["tags"].append("loop:" + ",".join(lo))
     return case
 
 
